@@ -18,9 +18,11 @@ Definition obs_eqb (o : obs) (r : result (list (list Z))) : bool :=
 Definition obs_is (o : obs) (rows : list (list Z)) : bool := (fst o =? 0) && zll_eqb (snd o) rows.
 
 Inductive case :=
-  (* get_reverse_complement on as_encoded_array(rows, enc): every route observed once (ragged array,
-     SequenceEntry dataclass, each row as a flat array), then applied twice; Biopython's answer per row *)
-| CRev (enc : Z) (rows : list (list Z)) (once : list obs) (twice : obs) (bio : list (list Z))
+  (* get_reverse_complement on as_encoded_array(rows, enc): every route observed once (ragged array — possibly
+     handed over as a not yet materialised view built by prior indexing, in which case [rows] are the rows that
+     view denotes —, SequenceEntry dataclass, each row as a flat array), then applied twice (without touching the
+     intermediate result, and with a materialised intermediate); Biopython's answer per row *)
+| CRev (enc : Z) (rows : list (list Z)) (once : list obs) (twice : list obs) (bio : list (list Z))
   (* strand-aware extraction.  route 0 = get_strand_specific_sequences(as_encoded_array(ref, enc), ivs),
      1 = GenomicSequence.from_dict(..).extract_intervals(ivs, stranded=True),
      2 = Genome.from_file(fasta).read_sequence()[stranded intervals]  (both ACGTN);
@@ -45,7 +47,7 @@ Definition spec_ok (c : case) : bool :=
       zll_eqb bio (map spec_revcomp rows)                                   (* Spec table = Biopython *)
       && all_true (map (fun o => obs_is o want) once)
       && zlist_eqb (map len want) (map len rows)
-      && obs_is twice (map (map (canon e)) rows)
+      && all_true (map (fun o => obs_is o (map (map (canon e)) rows)) twice)
   | CStr route e ref ivs o bio =>
       let e' := if route =? 0 then e else 2 in
       let want := map (spec_stranded (map (canon e') ref)) ivs in
@@ -62,7 +64,7 @@ Definition model_ok (c : case) : bool :=
   match c with
   | CRev e rows once twice _ =>
       all_true (map (fun o => obs_eqb o (model_revcomp complements e rows)) once)
-      && obs_eqb twice (model_revcomp2 complements e rows)
+      && all_true (map (fun o => obs_eqb o (model_revcomp2 complements e rows)) twice)
   | CStr route e ref ivs o _ =>
       obs_eqb o (if route =? 0 then model_stranded complements where_rows true e ref ivs
                  else model_stranded complements where_rows false 2 ref ivs)
